@@ -119,6 +119,7 @@ type Inv struct {
 	F         string `json:"f"`
 	O         bool   `json:"o"`
 	Obad      bool   `json:"obad"` // -o names a file in a directory that does not exist
+	Oin       string `json:"oin"`  // -o names one of the input files ("in1", "in2"): in place
 	P         bool   `json:"p"`
 	T         string `json:"t"`
 	Gdd       bool   `json:"gdd"`
@@ -537,7 +538,7 @@ func driveProc(p *Plan, shard int, w *Writer, t *codec.Table) {
 		if sess%p.Shards != shard {
 			continue
 		}
-		isErrCase := inv.Obad || inv.Pair == 9 || inv.In2 == "mismatch" || inv.In1 != "ok" || inv.In2 != "ok" || inv.Version || inv.Gdd || inv.Nargs == 0 || inv.Nargs >= 3 || inv.F == "bogus" || inv.T == "bogus" || inv.Setkeys == "bad" || (inv.P && inv.T != "")
+		isErrCase := inv.Obad || inv.Oin != "" || inv.Pair == 9 || inv.In2 == "mismatch" || inv.In1 != "ok" || inv.In2 != "ok" || inv.Version || inv.Gdd || inv.Nargs == 0 || inv.Nargs >= 3 || inv.F == "bogus" || inv.T == "bogus" || inv.Setkeys == "bad" || (inv.P && inv.T != "")
 		if !isErrCase && !keep(p.Seed, frac, "inv", ii) {
 			continue
 		}
@@ -629,6 +630,11 @@ func driveProc(p *Plan, shard int, w *Writer, t *codec.Table) {
 		if inv.Obad {
 			outFile = filepath.Join(dir, "no-such-directory", "out")
 		}
+		if inv.Oin == "in1" {
+			outFile = f1
+		} else if inv.Oin == "in2" {
+			outFile = f2
+		}
 		if inv.In1 != "missing" {
 			os.WriteFile(f1, []byte(in1), 0644)
 		}
@@ -636,8 +642,14 @@ func driveProc(p *Plan, shard int, w *Writer, t *codec.Table) {
 			os.WriteFile(f2, []byte(in2), 0644)
 		}
 		run := func(useStdin bool) (procOut, string, bool) {
-			os.Remove(outFile)
-			if inv.O && sess%2 == 1 {
+			if inv.Oin != "" {
+				// in place: the -o target is an input file; put the inputs back before every run
+				os.WriteFile(f1, []byte(in1), 0644)
+				os.WriteFile(f2, []byte(in2), 0644)
+			} else {
+				os.Remove(outFile)
+			}
+			if inv.O && sess%2 == 1 && inv.Oin == "" {
 				// the output file already exists and is longer than anything jd will write:
 				// "-o writes those same bytes to the file" must hold for a reused file too
 				os.WriteFile(outFile, []byte(strings.Repeat("stale output of an earlier run\n", 200)), 0644)
@@ -692,7 +704,7 @@ func driveProc(p *Plan, shard int, w *Writer, t *codec.Table) {
 		}
 		rec := Rec{"sess": sess, "op": "Proc", "inv": inv, "mode": mode, "proc": po, "file": file, "file_written": written, "lib": lib, "twin": false}
 		// round trip: feed the output to jd -p with the same reading flags
-		if mode == "diff" && !inv.Version && lib.Err == false && po.Exit >= 0 && po.Exit <= 1 && inv.In1 == "ok" && inv.In2 == "ok" && !inv.Color && inv.Nargs <= 2 && inv.Nargs >= 1 && inv.F != "bogus" {
+		if mode == "diff" && inv.Oin == "" && !inv.Version && lib.Err == false && po.Exit >= 0 && po.Exit <= 1 && inv.In1 == "ok" && inv.In2 == "ok" && !inv.Color && inv.Nargs <= 2 && inv.Nargs >= 1 && inv.F != "bogus" {
 			produced := po.Stdout
 			if inv.O {
 				produced = file
